@@ -37,6 +37,21 @@ CLAIMED = {
             'floats as reals; Decimal helpers as exact +,- (their exactness is a clause of C17); histories up to length 4 exhaustive, '
             '5-6 targeted (cancel then resubmit)',
             TECH),
+    'C05': ('DESIGN.md C05',
+            'Bounded solver-based check: every operation skeleton up to length 4 (5 thorough) over submit/execute/cancel/repeated '
+            'calls/cancel-all/pending-market flush/update_active_orders on up to 3 real orders, spot and futures, symbolic values: status '
+            'history, no-effect of calls on final orders (z3 equality of every balance, position, margin-table and trade-table observable), '
+            'active registry and one-trade-per-fill; plus the lifecycle invariants on every order of symbolic backtest sessions.',
+            'floats as reals; at most 3 orders; passive strategy attached (it cancels resting orders as the strategy layer does)',
+            TECH),
+    'C09': ('DESIGN.md C09',
+            'Bounded solver-based check: liquidation/bankruptcy price lemmas on the real Position properties (symbolic entry, every '
+            'integer leverage 2..125) and symbolic sessions through the real simulator with a monitor around _check_for_liquidations: '
+            'forced close iff still open and low<=liq<=high, closing fill MARKET reduce-only at the bankruptcy price, wallet loses '
+            'entry value/leverage plus fee, nothing left active, never in cross/spot.',
+            'floats as reals (binary64 constants folded as in the code; wallet identity within 1e-9 relative); 2-3 symbolic candles; '
+            'market entry with/without stop, two-point averaged entry',
+            TECH),
 }
 
 NOT_YET = {}
